@@ -1211,8 +1211,8 @@ def docs_case(ctx, k_):
 
 FAMILIES = [Family("directed", directed_case, N_DIRECTED, N_DIRECTED, budget={"quick": 60, "thorough": 120})]
 FAMILIES += [Family("uniform-" + kd, uniform_case(kd), quick=q, thorough=th)
-             for kd, q, th in (("line", 40, 1600), ("tri", 40, 1600), ("quad", 32, 1280), ("tet", 24, 960),
-                               ("hex", 16, 640))]
-FAMILIES += [Family("second-order", second_order_case, 32, 1280),
-             Family("histories", history_case, 40, 1600),
+             for kd, q, th in (("line", 120, 4800), ("tri", 160, 6400), ("quad", 120, 4800), ("tet", 80, 3200),
+                               ("hex", 48, 1920))]
+FAMILIES += [Family("second-order", second_order_case, 96, 3840),
+             Family("histories", history_case, 120, 4800),
              Family("docs-meshes", docs_case, 24, 24, budget={"quick": 60, "thorough": 240})]
